@@ -189,6 +189,15 @@ impl Acc {
     }
 }
 
+/// Roll-buffer capacity the scenario asks for (the shipped formula when the hook is unset).
+fn capacity_of(sc: &StreamScenario) -> usize {
+    let minb = sc.max_pattern_len().max(1);
+    match sc.spare {
+        Some(s) => minb + s.max(1),
+        None => (8 * minb).max(65536),
+    }
+}
+
 fn boundary_inside(run: &Run, m: &(u32, usize, usize)) -> usize {
     run.boundaries.iter().filter(|&&b| m.1 < b && b < m.2).count()
 }
@@ -213,6 +222,41 @@ fn probes_fault_free(acc: &mut Acc, sc: &StreamScenario, info: &GenInfo, run: &R
             span3 += 1;
         }
     }
+    // The same facts inferred at the seams, without the hook points inside the library (a tree
+    // under test may have dropped or moved them): lower bounds that every implementation with
+    // this buffer capacity must meet. Only trusted when the capacity override is honoured
+    // (the first read is offered the free space of an empty buffer, i.e. the capacity).
+    let minb = maxlen.max(1);
+    let capn = capacity_of(sc);
+    let hook_ok = sc.spare.is_none() || capn >= 32768 || run.first_read_offer.is_some_and(|o| o < 65536);
+    acc.probe("capacity_hook_honoured", (sc.spare.is_some() && capn < 32768 && hook_ok && run.first_read_offer.is_some()) as u64);
+    let rolls_seam: u64 = if hook_ok && run.delivered > capn {
+        1 + ((run.delivered - capn - 1) / (capn - minb).max(1)) as u64
+    } else {
+        0
+    };
+    // (the matches of a run are known to the harness for the iterator and the closure variant;
+    // the chunk iterator underneath is the same for all three operations)
+    let not_find = sc.op != StreamOp::Replace;
+    let first_start = matches.first().map(|m| m.1).unwrap_or(run.delivered);
+    let last_end = matches.last().map(|m| m.2).unwrap_or(0);
+    let mut prev_end = 0;
+    let mut gap_before_match = false;
+    for m in &matches {
+        if m.1 > prev_end {
+            gap_before_match = true;
+        }
+        prev_end = m.2;
+    }
+    acc.probe("roll@seam", rolls_seam);
+    acc.probe("run_with_2plus_rolls@seam", (rolls_seam >= 2) as u64);
+    acc.probe("multi_read_fill_below_min@seam", (run.boundaries.len() >= 2 && run.boundaries[0] < minb) as u64);
+    // more unmatched bytes than the buffer holds precede the first match: flushed before a roll
+    acc.probe("pre_roll_chunk@seam", (not_find && hook_ok && first_start > capn) as u64);
+    acc.probe("eof_chunk@seam", (not_find && run.delivered > last_end) as u64);
+    // the byte just before a match is never flushed early (it lies within the retained tail)
+    acc.probe("nonmatch_before_match_chunk@seam", (not_find && gap_before_match) as u64);
+    acc.probe("production_capacity_run_with_roll@seam", (sc.spare.is_none() && rolls_seam > 0) as u64);
     acc.probe("roll", rolls);
     acc.probe("run_with_2plus_rolls", (rolls >= 2) as u64);
     acc.probe("multi_read_fill_below_min", short_fill);
@@ -629,6 +673,12 @@ fn one_scenario(acc: &mut Acc, job: &Job, idx: u64, sc: &StreamScenario, info: &
                 Fault::Read { call, .. } => {
                     acc.probe("fault_at_first_read", (*call == 0) as u64);
                     acc.probe("fault_right_after_roll", calib.reads_after_roll.contains(call) as u64);
+                    {
+                        // seam-level: at least a buffer's worth had been delivered before this read
+                        let before = if *call == 0 { 0 } else { calib.boundaries.get(call - 1).cloned().unwrap_or(calib.delivered) };
+                        let hook_ok = sc.spare.is_none() || calib.first_read_offer.is_some_and(|o| o < 65536);
+                        acc.probe("fault_right_after_roll@seam", (hook_ok && before >= capacity_of(sc)) as u64);
+                    }
                     acc.probe("fault_in_place_of_eof_read", (*call + 1 >= calib.read_calls) as u64);
                     // delivered bytes at that call in the calibration run
                     let delivered = if *call == 0 { 0 } else { calib.boundaries.get(call - 1).cloned().unwrap_or(calib.delivered) };
